@@ -100,22 +100,23 @@ var predNames = [...]string{"none", "AnyError", "Error(met)", "Error(unmet)", "E
 
 // caseSpec scripts one case: what its collaborators will do.
 type caseSpec struct {
-	constraint int // 0, 1 OnlyMarshal, 2 OnlyUnmarshal
-	beh        int
-	before     int
-	after      int
-	pred       int
-	payload    string
-	nilValue   bool // unmarshal direction, pointer-typed T: the case lists a nil pointer as its value
-	nilIface   bool // interface-typed T: the case lists a nil interface value (not the first case)
-	adjust     bool // the case is listed with a wrong expectation and its (passing) Before hook puts it right
-	wrongKind  int  // how a "wrong" result differs from the right one
-	wildcard   bool // unmarshal, asymmetric TypeHelper: the listed value leaves the payload open
-	nilExpect  bool // unmarshal, slice and map kinds: the case lists a nil value (an empty non-nil result differs from it)
-	other      bool // interface-typed T: the value of this case is a *Q instead of a *P
-	emptyData  bool // marshal direction: the case expects no data at all ("" / nil); only a marshaler that returns (nil, nil) matches
-	adjustPred bool // with adjust: the case is also listed with the wrong kind of expectation (a predicate where none belongs, or none where one belongs) and its Before hook installs the right one
-	nilData    bool // binary unmarshal helper: the case lists nil input data; the decoder must be handed nil, not an empty non-nil slice
+	constraint  int // 0, 1 OnlyMarshal, 2 OnlyUnmarshal
+	beh         int
+	before      int
+	after       int
+	pred        int
+	payload     string
+	nilValue    bool // unmarshal direction, pointer-typed T: the case lists a nil pointer as its value
+	nilIface    bool // interface-typed T: the case lists a nil interface value (not the first case)
+	adjust      bool // the case is listed with a wrong expectation and its (passing) Before hook puts it right
+	wrongKind   int  // how a "wrong" result differs from the right one
+	wildcard    bool // unmarshal, asymmetric TypeHelper: the listed value leaves the payload open
+	nilExpect   bool // unmarshal, slice and map kinds: the case lists a nil value (an empty non-nil result differs from it)
+	other       bool // interface-typed T: the value of this case is a *Q instead of a *P
+	emptyData   bool // marshal direction: the case expects no data at all ("" / nil); only a marshaler that returns (nil, nil) matches
+	adjustAfter bool // the case is listed with a wrong expectation (expected data for marshal, expected value for unmarshal) and its (passing) After hook puts it right before the assertions
+	adjustPred  bool // with adjust: the case is also listed with the wrong kind of expectation (a predicate where none belongs, or none where one belongs) and its Before hook installs the right one
+	nilData     bool // binary unmarshal helper: the case lists nil input data; the decoder must be handed nil, not an empty non-nil slice
 }
 
 // ways a wrong result differs
@@ -200,6 +201,9 @@ func (c caseSpec) sig() string {
 	}
 	if c.adjustPred {
 		nv += ",before-hook-installs-or-clears-the-predicate"
+	}
+	if c.adjustAfter {
+		nv += ",after-hook-adjusts-expectation"
 	}
 	return fmt.Sprintf("constraint=%d,beh=%s,before=%s,after=%s,pred=%s%s", c.constraint, behNames[c.beh], hookNames[c.before], hookNames[c.after], predNames[c.pred], nv)
 }
